@@ -283,6 +283,8 @@ def vcf_header_lines(world):
     for k in sorted(filt):
         if ("##FILTER=<ID=%s," % k) not in have:
             lines.append('##FILTER=<ID=%s,Description="%s">' % (k, k))
+    # declarations no record uses (callers declare every annotation they might emit), after all used ones
+    lines += list(world.get("header_tail", ()))
     return lines
 
 
